@@ -157,6 +157,11 @@ fn growth_case<const M: usize>(rep: &mut Report, rng: &mut Rng, volume: usize, d
                     rng.range(1, 64)
                 }
             }
+            6 => {
+                // slowly increasing multi-page blocks, each a bit larger than the current chunk
+                let cur = s.chunks.last().map(|c| c.size).unwrap_or(4096).max(4096);
+                cur + rng.range(1, cur / 2)
+            }
             _ => 1usize << rng.range(0, 14),
         };
         let align = 1usize << if rng.chance(1, 10) { rng.below(7) } else { rng.below(4) };
@@ -180,6 +185,16 @@ fn growth_case<const M: usize>(rep: &mut Report, rng: &mut Rng, volume: usize, d
             if n >= 2 && s.chunks[n - 1].size < s.chunks[n - 2].size {
                 rep.violate("C18", "C18/growth/new-chunk-smaller-than-predecessor", format!("{} after {} (request {} align {})", s.chunks[n - 1].size, s.chunks[n - 2].size, size, align));
             }
+            // "doubling while the global allocator and limit permit": nothing refuses anything in
+            // this run, so every new chunk has at least twice the usable size of its predecessor
+            if n >= 2 && (s.chunks[n - 1].size - s.k) < 2 * (s.chunks[n - 2].size - s.k) {
+                rep.violate(
+                    "C18",
+                    "C18/growth/new-chunk-not-doubled",
+                    format!("usable {} after usable {} (request {} align {}, nothing was refused)", s.chunks[n - 1].size - s.k, s.chunks[n - 2].size - s.k, size, align),
+                );
+            }
+            rep.bump("c18.doubling_checks");
         }
         let _ = ev;
         occupied_req += size;
@@ -273,7 +288,10 @@ fn run_m<const M: usize>(args: &Args, rep: &mut Report) {
     if !miri {
         let volumes: &[usize] = if quick { &[1_000, 20_000, 400_000, 3_000_000] } else { &[1_000, 5_000, 20_000, 100_000, 400_000, 1_000_000, 3_000_000, 12_000_000] };
         for &v in volumes {
-            for dist in 0u8..6 {
+            for dist in 0u8..7 {
+                if dist == 6 && v < 100_000 {
+                    continue;
+                }
                 if dist == 0 && v > 1_000_000 {
                     continue;
                 }
@@ -365,6 +383,29 @@ fn run_collections(args: &Args, rep: &mut Report) {
                     }
                 }
                 let _ = neighbours;
+                // extend / extend_from_slice with iterators whose size_hint is inexact, within reserved room
+                {
+                    let room = rng.range(8, 64);
+                    let mut w: BVec<$T> = BVec::with_capacity_in(room, &b);
+                    let first = room / 4;
+                    for i in 0..first {
+                        w.push($mk(i));
+                    }
+                    b.alloc(3u8);
+                    let pw = w.as_ptr();
+                    let yield_n = rng.range(0, room - first);
+                    // a filter over a long range: lower bound 0, upper bound far above the room left
+                    w.extend((0..10_000usize).filter(|x| x % 97 == 0).take(yield_n).map(|i| $mk(i)));
+                    let mut cnt = 0;
+                    w.extend((0..5_000usize).take_while(|_| {
+                        cnt += 1;
+                        cnt <= 0
+                    }).map(|i| $mk(i)));
+                    if w.as_ptr() != pw || w.len() != first + yield_n.min(104) {
+                        rep.violate("C18", format!("C18/vec<{}>/moved-within-reserved-capacity/extend-inexact-hint", $name), format!("capacity {} len {} -> {} moved {}", room, first, w.len(), w.as_ptr() != pw));
+                    }
+                    rep.bump("c18.vec_extend_inexact_cases");
+                }
                 rep.bump("c18.vec_capacity_cases");
                 rep.evaluations += 1;
                 rep.distinct.insert(fnv(fnv(n as u64, k as u64), std::mem::size_of::<$T>() as u64));
@@ -424,6 +465,21 @@ fn run_collections(args: &Args, rep: &mut Report) {
                 }
             }
         }};
+    }
+    // sparse collect: a handful of elements out of a long filtered range must not reserve for the range
+    for _ in 0..(if miri { 1 } else { 20 }) {
+        use bumpalo::collections::CollectIn;
+        let b = Bump::new();
+        let span = if miri { 500usize } else { rng.range(50_000, 400_000) };
+        let step = span / rng.range(3, 12);
+        let v: BVec<u64> = (0..span as u64).filter(|x| (*x as usize) % step == 0).collect_in(&b);
+        let w: BVec<u64> = BVec::from_iter_in((0..span as u64).filter(|x| (*x as usize) % step == 1), &b);
+        let occupied = (v.len() + w.len()) * 8 + 64;
+        if b.allocated_bytes() > 24 * occupied + (16 << 10) || v.capacity() > 8 * v.len() + 16 {
+            rep.violate("C18", "C18/vec<u64>/sparse-collect-reserves-for-the-upper-bound", format!("{}+{} elements, capacity {}, arena holds {} bytes (range of {})", v.len(), w.len(), v.capacity(), b.allocated_bytes(), span));
+        }
+        rep.bump("c18.sparse_collect_cases");
+        rep.evaluations += 1;
     }
     vec_case!(u8, |i: usize| i as u8, "u8");
     vec_case!(u64, |i: usize| i as u64, "u64");
